@@ -265,6 +265,16 @@ impl PacketReceiver {
 
             self.entry_flags[flags_index] &= !flag_bit;
 
+            if self.data_flags[flags_index] & flag_bit != 0 {
+                // The window is moving past a packet which was never delivered (its sender violated
+                // the parent lead rules). Release the data along with the allocation below.
+                self.data_flags[flags_index] &= !flag_bit;
+                self.data_entries[window_idx].data = None;
+
+                let channel_id = self.channel_entries[window_idx].channel_id;
+                self.channels[channel_id as usize].packet_count -= 1;
+            }
+
             id = packet_id::add(id, 1);
         }
 
@@ -394,9 +404,6 @@ impl PacketReceiver {
                     if window_parent_lead == 0 || window_parent_lead > window_delta {
                         // println!("Forget sequence ID {}", sequence_id);
                         new_base_id = next_id;
-                        // Window advancement implies that this packet has been delivered
-                        debug_assert!(self.data_flags[flags_index] & flag_bit == 0);
-                        debug_assert!(self.data_entries[window_idx].data.is_none());
                     } else {
                         // Cease to consider advancing the window
                         break;
